@@ -24,7 +24,7 @@ LEVEL_TEXT = ("Seeded stall-fault injection: the live state is checked at every 
 LEVEL_NOTE = "Trusted: harness observers, dump comparison; sampling evidence only."
 PROBES = ["absence_step_with_working_task", "absence_at_step_0", "consecutive_absence", "fault.absence_beyond_end",
           "auto_progress_in_absence", "auto_frozen_in_absence", "individual_absence_on_holder", "twin_compared",
-          "twin_with_beyond_end", "twin_cut_off_by_max_time"]
+          "twin_with_beyond_end", "twin_cut_off_by_max_time", "backward_runs"]
 
 
 def budget(tier):
@@ -43,7 +43,16 @@ def gen(rng, tier):
     spec = C.forward_spec(rng, tier, focus)
     if twin and rng.random() < 0.6:
         spec["cfg"]["auto_flag"] = False
+    if not twin and rng.random() < 0.3:
+        spec["backward"] = {"due": rng.random() < 0.3, "reverse": rng.random() < 0.5}
     return spec
+
+
+def extra_candidates(spec):
+    if spec.get("backward") is not None:
+        c = dict(spec)
+        c.pop("backward")
+        yield c
 
 
 def twin_eligible(spec):
@@ -190,6 +199,25 @@ def check_live(res, tr):
 
 
 def run(spec):
+    if spec.get("backward") is not None:
+        # the same dead-time rules hold for the steps of a backward simulation (the inner run is observed)
+        from .. import build as B
+        scen.setup_run(spec.get("seed", 0))
+        tr = scen.Trace()
+        tr.model, tr.cfg = spec["model"], spec["cfg"]
+        tr.built = B.build(spec["model"], spec.get("ranks"))
+        tr.project = tr.built.project
+        tr.absence = set(spec["cfg"].get("absence", []))
+        bw = dict(spec["backward"])
+        bw["reverse"] = False  # keep log index == step time for the log clauses
+        tr.rec, tr.out = scen.simulate(tr.project, spec["cfg"], backward=bw)
+        tr.ix = tr.rec.ix
+        tr.history, tr.log_offset = None, 0
+        tr.exact = spec.get("profile", {}).get("alphabet") == "dyadic"
+        res = C.base_result(tr)
+        res.count("backward_runs")
+        res.nontrivial = bool(check_live(res, tr))
+        return C.finish(res, tr)
     tr = C.run_forward(spec)
     tr.exact = spec.get("profile", {}).get("alphabet") == "dyadic"
     res = C.base_result(tr)
